@@ -18,6 +18,10 @@ from vfpy import c12_gen as G
 TARGETS = ("Graph.sort", "Function.sort", "TopologicalSortPass", "Graph.sort(subgraph)")
 
 
+class MoveFailed(Exception):
+    """A move operation of a history raised (not what C12 judges; the evaluation is set aside)."""
+
+
 class Built:
     def __init__(self) -> None:
         self.nodes: list[ir.Node] = []
@@ -70,6 +74,7 @@ def build(spec: G.Spec, variant: str = "A", seed: int = 0) -> Built:
 
     dspec = spec.get("detached", [])
     dnodes: list[Any] = [None] * len(dspec)
+    history = spec.get("history")
 
     def make_detached(did: int) -> None:
         d = dspec[did]
@@ -79,7 +84,7 @@ def build(spec: G.Spec, variant: str = "A", seed: int = 0) -> Built:
         dnodes[did] = node
 
     def make_graph(gid: int) -> None:
-        members = [nodes[x] for x in gspec[gid]["order"]]
+        members = [nodes[x] for x in (history["start"][gid] if history else gspec[gid]["order"])]
         # nodes that will be taken out again with the non-safe remove() start inside the graph
         for did, d in enumerate(dspec):
             if d["how"] == "removed" and d["scope"] == gid:
@@ -153,9 +158,40 @@ def build(spec: G.Spec, variant: str = "A", seed: int = 0) -> Built:
         if node.graph is not None:
             raise RuntimeError(f"C12 harness: detached node d{did} is still in a graph")
 
+    if history:
+        apply_moves(nodes, graphs, history["moves"])
     b.nodes, b.graphs, b.detached = nodes, graphs, dnodes
     b.nid = {id(n): k for k, n in enumerate(nodes)}
     return b
+
+
+def apply_moves(nodes: list, graphs: list, moves: list) -> None:
+    """The moves of a history (c12_gen) through the public API, on the finished graphs."""
+    for kind, gid, anchor, moved, form in moves:
+        objs = [nodes[x] for x in moved]
+        arg: Any = objs[0] if form == "node" else objs if form == "list" else tuple(objs) if form == "tuple" else iter(objs)
+        g = graphs[gid]
+        try:
+            if kind == "Graph.insert_after":
+                g.insert_after(nodes[anchor], arg)
+            elif kind == "Graph.insert_before":
+                g.insert_before(nodes[anchor], arg)
+            elif kind == "Node.append":
+                nodes[anchor].append(arg)
+            elif kind == "Node.prepend":
+                nodes[anchor].prepend(arg)
+            elif kind == "Graph.append":
+                g.append(objs[0])
+            elif kind == "Graph.extend":
+                g.extend(arg)
+            elif kind == "Graph.remove":
+                g.remove(arg)
+            else:
+                raise AssertionError(kind)
+        except AssertionError:
+            raise
+        except Exception as e:  # noqa: BLE001
+            raise MoveFailed(f"{kind} raised {type(e).__name__}: {e}"[:300]) from e
 
 
 def orders(b: Built) -> list[list[int]]:
@@ -249,7 +285,10 @@ def make_sorter(case: dict, builts: list[Built]):
 def execute(case: dict, variant: str = "A", seed: int = 0, resort: bool = True) -> dict:
     """Build every unit of the case, sort once (and once more if that succeeded), and report
     everything the oracle needs as plain data."""
-    builts = [build(spec, variant, seed + k) for k, spec in enumerate(case["units"])]
+    try:
+        builts = [build(spec, variant, seed + k) for k, spec in enumerate(case["units"])]
+    except MoveFailed as e:
+        return {"move_failed": str(e)}
     out: dict[str, Any] = {
         "pre": [orders(b) for b in builts],
         "cons": [object_constraints(b) for b in builts],
@@ -263,6 +302,7 @@ def execute(case: dict, variant: str = "A", seed: int = 0, resort: bool = True) 
         out["exc_text"] = f"{type(e).__name__}: {e}"[:300]
     out["post"] = [orders(b) for b in builts]
     out["faults"] = [f for b in builts for f in membership_faults(b)]
+    out["reversed_differs"] = sum(1 for b in builts for g in b.graphs if list(reversed(g))[::-1] != list(g))
     out["cons_after"] = [object_constraints(b) for b in builts] if out["exc"] is None else None
     out["exc2"], out["post2"] = None, None
     if resort and out["exc"] is None:
